@@ -716,6 +716,13 @@ def r7_6(rep):
             rep.bad("%s:initial_worklist" % a.name, "missing")
             continue
         src = iw.canon(iw.root.get("tail") or iw.root, 14)
+        # an analysis may compute its node set in a helper of its own (UsedTemplateParameters: closure through blocklisted items)
+        for hc in iw.calls(lambda n: n["k"] == "Call" and (n.get("callee") or "") in prog.bodies and a.name in (n.get("callee") or "")):
+            hb = prog.bodies[hc["callee"]]
+            names = {(x.get("name") or "") for x in hb.walk() if x["k"] == "MCall"}
+            if "allowlisted_items" in names:
+                src += " BindgenContext::allowlisted_items(helper %s)" % hc["callee"].split("::")[-1]
+            src += " " + " ".join("::%s(" % nm for nm in names if nm in ("skip", "take", "step_by", "filter", "take_while", "skip_while", "rev", "nth", "last", "find"))
         lossy = re.findall(r"::(skip|take|step_by|filter|take_while|skip_while|rev|nth|last|find)\(", src)
         fm_ok = True
         for c in iw.calls(lambda n: n["k"] == "MCall" and n["name"] == "filter_map"):
@@ -1050,3 +1057,80 @@ def r7_10(rep):
         elif both and c.get("op") == "!=":
             good = t.endswith("Changed") and e.endswith("Same")
     rep.check(good, "changed-iff-grew", "`Same` exactly when the two sizes are equal", b.loc(tail) if tail else b.loc(b.root))
+
+
+# =====================================================================================================
+# R7.11  edges are emitted for every element of a stored collection
+# =====================================================================================================
+@RULES.rule("R7.11", "a Trace impl emits an edge for every element of the collection it walks", floor=11)
+def r7_11(rep):
+    """`constrain` reads whole collections (`info.base_members()`, `fields()`, `template_arguments()`); the re-queue map is built from
+    the traced edges.  R7.1 matches reads to emissions per storage site and treats an unknown condition as "may hold", so an edge that
+    is emitted for SOME elements only (virtual bases skipped "because they get no field") would satisfy it while the class is no longer
+    re-queued when its virtual base changes: its vtable / destructor / float facts then depend on the item numbering (seeded change).
+    Inside the loop (or iterator closure) that walks a collection, nothing may stand between the loop head and the `visit*` call."""
+    prog = rep.prog
+    g = tg.TraceGraph(prog)
+    n = 0
+    per = {}
+    for p, ems in sorted(g.emissions.items()):
+        b = prog.bodies[p]
+        for e in ems:
+            scope = next((a for a in b.ancestors(e.node) if a["k"] in ("For", "While", "Loop", "Closure")), None)
+            if scope is None:
+                continue
+            n += 1
+            body = scope["body"]
+            base = b.guards(body, nested=True) if scope["k"] != "Closure" else b.guards(scope, nested=True)
+            extra = [g3 for g3 in b.guards(e.node, nested=True) if g3 not in base and not (g3[1] == "cond" and is_log(b, g3[2]))]
+            who = short(b.fact.get("impl_self") or "") or p.split("::")[-2]
+            k0 = "every-element:%s::%s" % (who, e.kind)
+            per[k0] = per.get(k0, 0) + 1
+            key = k0 if per[k0] == 1 else "%s#%d" % (k0, per[k0] - 1)
+            rep.check(not extra, key, "emitted for every element" if not extra else
+                      "the %s edge is only emitted for elements with `%s`: the analyses read the whole collection, so an item is not "
+                      "re-queued when one of the skipped neighbours changes" %
+                      (e.kind, (b.canon(extra[0][2], 4)[:70] if extra[0][1] == "cond" else extra[0][1])), b.loc(e.node))
+    rep.need(n >= 11, "edge emissions inside loops over stored collections")
+
+
+# =====================================================================================================
+# R7.12  UsedTemplateParameters covers everything reachable, also behind blocklisted items
+# =====================================================================================================
+@RULES.rule("R7.12", "UsedTemplateParameters: usage sets and the initial worklist cover the closure of the allowlisted items under tracing", floor=3)
+def r7_12(rep):
+    """This analysis also has to constrain items that are NOT allowlisted (an instantiation of a blocklisted template uses all its
+    arguments).  `allowlisted_items()` stops at blocklisted items, so they have to be added by tracing from the allowlisted ones — to
+    a fixed point, because a blocklisted item can sit behind another one (a type reference to `Wrap<A>` is blocklisted by name like the
+    instantiation it refers to).  One step of tracing left that instantiation without a worklist slot: whether `Holder` kept its
+    parameter depended on the declaration order (found by a seeding agent on the pinned tree, fixed).  Both `new` and
+    `initial_worklist` must take their items from one helper that loops until nothing new is found."""
+    prog = rep.prog
+    a = next((x for x in analyses(rep) if x.name == "UsedTemplateParameters"), None)
+    rep.need(a, "the UsedTemplateParameters analysis")
+    used = {}
+    for nm in ("new", "initial_worklist"):
+        b = a.methods.get(nm)
+        rep.need(b, "UsedTemplateParameters::" + nm)
+        helpers = [c for c in b.calls(lambda x: x["k"] == "Call" and (x.get("callee") or "") in prog.bodies and
+                                      "UsedTemplateParameters" in (x.get("callee") or "") and (x.get("callee") or "").split("::")[-1] not in ("new",))]
+        own_trace = [c for c in b.calls(lambda x: x["k"] == "MCall" and x["name"] == "trace") if not in_macro(b, c, ASSERTS | {"cfg"})]
+        used[nm] = {(c.get("callee") or "") for c in helpers}
+        if nm == "initial_worklist":
+            rep.check(bool(helpers) and not own_trace, "worklist-from-closure", "the initial worklist is the helper's closure" if helpers and not own_trace else
+                      "initial_worklist traces one step from the allowlisted items itself: items behind a blocklisted item never get a turn", b.loc(b.root))
+    common = used["new"] & used["initial_worklist"]
+    rep.check(bool(common), "same-item-set", "`new` and `initial_worklist` take their items from %s" % ", ".join(sorted(x.split("::")[-1] for x in common)) if common else
+              "`new` and `initial_worklist` compute their item sets separately", a.methods["new"].loc(a.methods["new"].root))
+    for h in sorted(common):
+        hb = prog.bodies[h]
+        loops = [l for l in hb.walk() if l["k"] in ("While", "Loop")]
+        ok = False
+        for l in loops:
+            pops = [c for c in hb.calls(lambda x: x["k"] == "MCall" and x["name"] in ("pop", "pop_front", "pop_back")) if any(y is c for y in hb.walk(l))]
+            pushes = [c for c in hb.calls(lambda x: x["k"] == "MCall" and x["name"] in ("push", "push_back", "extend"), l["body"])]
+            traces = [c for c in hb.calls(lambda x: x["k"] == "MCall" and x["name"] == "trace", l["body"])]
+            same = any(strip(p["recv"]).get("id") is not None and strip(p["recv"]).get("id") == strip(q["recv"]).get("id") for p in pops for q in pushes)
+            ok = ok or (bool(pops) and bool(traces) and same)
+        rep.check(ok, "closure-to-fixpoint@%s" % h.split("::")[-1], "worklist loop: pop, trace, push what is new" if ok else
+                  "`%s` does not iterate to a fixed point (no loop that pops an item, traces it and pushes the newly found ones)" % h.split("::")[-1], hb.loc(hb.root))
